@@ -21,7 +21,10 @@ RULE = ("seeded generator of serialized BTC transactions (1..N inputs, script-si
 RULE_ADDED = (
               'Also: undecodable requests repeated up to three times, after a well-formed one, or '
               'with a reconnection pending; half of the relays in segwit mode; lengths and counts on '
-              'varint boundaries; a third of the shards under python -O ')
+              'varint boundaries; a third of the shards under python -O '
+              ' '
+              'Round 8: scripts whose final operation (opcode or one-byte push) also occurs ear'
+              'lier in the script. ')
 RULE = RULE + " " + RULE_ADDED.strip()
 ASSUMPTIONS = [
     "comm/bitcoin.py is exercised composed with the bitcoin.core shim in pv/shims "
